@@ -390,6 +390,8 @@ def shot_noise(img, method='poisson', seed=None):
     else:
         if np.min(img) < 0:
             raise ValueError('Counts must be positive')
+        if np.max(img) > 9.223372006484771e+18:
+            raise ValueError('Counts exceed max representable value')
         # REF: https://stackoverflow.com/a/33701974
         with np.errstate(divide='raise'):
             try:
